@@ -41,7 +41,7 @@ def rule(fn, kind, expr, ordn, guards, contract):
     if fn == 'cron.getRange':
         return thm('C04Parser', 'Kit.Cron.parse_never_panics', [])
     if fn == 'cron.parseDescriptor':
-        return guarded(need('strings.HasPrefix(descriptor, every)'), 'the slice starts at the length of a prefix the string has')
+        return thm('C04Parser', 'Kit.Cron.parse_never_panics', need('strings.HasPrefix(descriptor, every)'))
     if fn == 'cron.SpecSchedule.Next':
         if kind == 'goto':
             return thm('C04Next', 'Kit.CronSpec.next_terminates', [])
@@ -58,7 +58,7 @@ def rule(fn, kind, expr, ordn, guards, contract):
     if fn == 'crypto.signPrivateKeyEdDSA':
         return '.delegated "jwx" "okpKey.Raw builds the private key with ed25519.NewKeyFromSeed after checking the seed size, so it has PrivateKeySize bytes (exercised: d of every length 0..40)"'
     if fn == 'crypto.verifyPublicKeyEdDSA':
-        return guarded(need('!(okpKey.Raw(&ed25519Key) != nil || len(ed25519Key) != ed25519.PublicKeySize)'), 'length checked before ed25519.Verify (fix 2829ef0)')
+        return thm('C07Sites', 'Kit.C07.verifyEd25519_sites', need('!(okpKey.Raw(&ed25519Key) != nil || len(ed25519Key) != ed25519.PublicKeySize)'))
     if fn == 'crypto.ParseKey':
         return thm('C07', 'parseKey_never_panics', need('!(l == 0)') + (need('len(raw) > 10') if kind == 'slice' else []))
     if fn == 'crypto.parseSymmetricKey':
@@ -92,21 +92,13 @@ def rule(fn, kind, expr, ordn, guards, contract):
         return thm('C07', 'chainLoop_never_panics', need('for i < len(certs)-1'))
     # ---------------- aeskw ----------------
     if fn == 'crypto/aeskw.Wrap':
-        if kind == 'make':
-            return '.sizeFromLen "n = len(cek)/8, (n+1)*8"'
-        return thm('C07Imported', 'Kit.C07.aeskw_wrap_never_panics', need('!(len(cek)%8 != 0)', '!(len(cek) < 16)'))
+        return thm('C07Sites', 'Kit.C07.aeskw_wrap_sites', need('!(len(cek)%8 != 0)', '!(len(cek) < 16)'))
     if fn == 'crypto/aeskw.Unwrap':
-        if kind == 'make':
-            return guarded(need('!(len(cipherText) < 24 || len(cipherText)%8 != 0)'), 'n = len/8 - 1 >= 2')
-        return thm('C03', 'Kit.CryptoGlue.unwrap_never_panics', need('!(len(cipherText) < 24 || len(cipherText)%8 != 0)'))
+        return thm('C07Sites', 'Kit.C07.aeskw_unwrap_sites', need('!(len(cipherText) < 24 || len(cipherText)%8 != 0)'))
     if fn == 'crypto/aeskw.arrConcat':
-        return '.callerContract "unexported; called with two arrays in Wrap/Unwrap and with r... (n >= 2 registers) at the end of Unwrap"'
+        return thm('C07Sites', 'Kit.C07.arrConcat_sites', [])
     if fn == 'crypto/aeskw.arrXor':
-        if kind == 'make':
-            return '.sizeFromLen "len(arrL)"'
-        if expr == 'arrR[x]':
-            return '.callerContract "unexported; both call sites pass 8-byte slices (b[:len(b)/2] of a 16-byte block, tBytes, a)"'
-        return guarded(need('range x over arrL'), 'index ranges over the slice out was made from')
+        return thm('C07Sites', 'Kit.C07.arrXor_sites', need('range x over arrL') if kind == 'index' else [])
     # ---------------- padding ----------------
     if fn == 'crypto/padding.PadPKCS7':
         if kind == 'make':
@@ -120,24 +112,28 @@ def rule(fn, kind, expr, ordn, guards, contract):
         return thm('C07Imported', 'Kit.C07.unpad_never_panics', need('!(padLen <= 0 || padLen > size)', '!(l%size != 0)', '!(l == 0)'))
     # ---------------- aescbcaead ----------------
     if fn == 'crypto/aescbcaead.NewAESCBCAEAD':
-        return guarded(need('!(len(p.key) != l)'), 'len(key) = encKeySize + macKeySize')
+        return thm('C07Sites', 'Kit.C07.newAESCBCAEAD_sites', need('!(len(p.key) != l)'))
     if fn == 'crypto/aescbcaead.aesCBCAEAD.Seal':
         if expr == 'panic("invalid nonce")':
             return '.documentedMisuse "cipher.AEAD Seal with a wrong-size nonce (standard-library contract)"'
         if kind == 'panic':
-            return '.typeInvariant "encKey has 16/24/32 bytes by the constructor parameters, so aes.NewCipher succeeds; PadPKCS7 with size 16 never fails"'
+            return thm('C07Imported', 'Kit.C07.aescbcaead_params_sound', need('err != nil'))
         if kind == 'make':
-            return '.sizeFromLen "dstLen+size"'
+            return thm('C07Sites', 'Kit.C07.growDst_sites', need('!(cap(dst) >= (dstLen + size))'))
         if expr == 'dst[:dstLen+size]':
-            return guarded(need('cap(dst) >= (dstLen + size)'), 'capacity checked')
+            return thm('C07Sites', 'Kit.C07.growDst_sites', need('cap(dst) >= (dstLen + size)'))
+        if expr == 'dst[dstLen:]':
+            return thm('C07Sites', 'Kit.C07.growDst_sites', [])
         return thm('C07Imported', 'Kit.C07.cbcHmacSeal_never_panics', need('!(len(nonce) != aes.BlockSize)'))
     if fn == 'crypto/aescbcaead.aesCBCAEAD.Open':
         if expr.startswith('ciphertext['):
             return thm('C07Imported', 'Kit.C07.cbcHmacOpen_never_panics', need('!(len(ciphertext) < aead.tagSize)'))
         if expr == 'dst[:dstLen+size]':
-            return guarded(need('cap(dst) >= (dstLen + size)'), 'capacity checked')
+            return thm('C07Sites', 'Kit.C07.growDst_sites', need('cap(dst) >= (dstLen + size)'))
         if kind == 'make':
-            return '.sizeFromLen "dstLen+size"'
+            return thm('C07Sites', 'Kit.C07.growDst_sites', need('!(cap(dst) >= (dstLen + size))'))
+        if expr == 'dst[dstLen:]':
+            return thm('C07Sites', 'Kit.C07.growDst_sites', [])
         if expr == 'cipher.NewCBCDecrypter(block, nonce)':
             return '.documentedMisuse "cipher.AEAD Open: the nonce must be NonceSize() bytes long (standard-library contract, same as Seal)"'
         if 'CryptBlocks' in expr:
@@ -146,7 +142,7 @@ def rule(fn, kind, expr, ordn, guards, contract):
     if fn == 'crypto/aescbcaead.aesCBCAEAD.hmacTag':
         if kind == 'call':
             return '.constIndex "al is made with 8 bytes"'
-        return '.typeInvariant "tagSize <= hash size by the four constructors (16<=32, 24<=48, 24<=48, 32<=64)"'
+        return thm('C07Imported', 'Kit.C07.aescbcaead_params_sound', [])
     # ---------------- enc ----------------
     if fn in ('schemes/enc/v1.processSegments', 'schemes/enc/v1.readHeader'):
         if kind == 'assert':
@@ -167,39 +163,35 @@ def rule(fn, kind, expr, ordn, guards, contract):
         if kind == 'make':
             return '.sizeFromLen "len(parts)"'
         conds = [c for c in guards if c.startswith('f == stringType')]
-        return guarded(need(*conds), 'f is exactly the type string, and data has dynamic type f (mapstructure contract); also C07 hookChain_never_panics')
+        return thm('C07', 'hookChain_never_panics', need(*conds))
     if fn in ('metadata.GetMetadataPropertyWithMatchedKey',) or (fn == 'metadata.resolveAliases' and kind == 'make'):
         return '.sizeFromLen "len of a map"'
     if fn == 'metadata.DecodeMetadata':
         if expr == 'f.Interface()':
-            return guarded(need('err == nil && f.Kind() == reflect.Map && f.CanInterface()'), 'CanInterface checked (fix 466c97a)')
-        return guarded(need('v.Kind() == reflect.Struct'), 'struct kind checked; v is valid because Kind() of the zero Value is Invalid')
+            return thm('C07Sites', 'Kit.C07.decodeMetadata_reflect_sites', need('err == nil && f.Kind() == reflect.Map && f.CanInterface()'))
+        return thm('C07Sites', 'Kit.C07.decodeMetadata_reflect_sites', need('v.Kind() == reflect.Struct'))
     if fn == 'metadata.resolveAliases':
         if expr == 't.Elem()':
-            return guarded(need('!(t.Kind() != reflect.Pointer)') if ordn == 0 else need('t.Kind() == reflect.Pointer'), 'pointer kind checked')
-        if ordn == 0:
-            return '.callerContract "t = reflect.TypeOf(result) is nil only for a nil result argument (program text, not input): C07 resolveAliases_never_panics"'
-        return guarded([], 't is non-nil after the first Kind() call returned')
+            return thm('C07Sites', 'Kit.C07.resolveAliases_reflect_sites', need('!(t.Kind() != reflect.Pointer)') if ordn == 0 else need('t.Kind() == reflect.Pointer'))
+        return thm('C07Sites', 'Kit.C07.resolveAliases_reflect_sites', [])
     if fn == 'metadata.resolveAliasesInType':
-        if expr == 't.Field(i)':
-            return guarded(need('for i < t.NumField()'), 'index below NumField')
-        return '.callerContract "t is a struct type: checked by resolveAliases; recursive calls pass the type of a `,squash` field, which mapstructure requires to be a struct"'
+        return thm('C07Sites', 'Kit.C07.resolveAliases_reflect_sites', need('for i < t.NumField()') if expr == 't.Field(i)' else [])
     # ---------------- config ----------------
     if fn == 'config.var':
-        return '.typeInvariant "(*StringDecoder)(nil) has a pointer type: Elem is legal"'
+        return thm('C07Sites', 'Kit.C07.typeElem_sites', [])
     if fn == 'config.decodeString':
         if expr in ('t.Kind()', 'f.Kind()') and not any('decoder != nil' in c for c in guards):
             return '.callerContract "f and t are the non-nil reflect.Types mapstructure passes to a DecodeHookFuncType"'
         if expr == 'reflect.ValueOf(data).Elem()':
-            return guarded(need('f.Kind() == reflect.Ptr'), 'data has dynamic type f, a pointer type')
+            return thm('C07Sites', 'Kit.C07.decodeString_reflect_sites', need('f.Kind() == reflect.Ptr'))
         if expr == 'inner.IsNil()':
-            return guarded(need('inner.Kind() == reflect.Interface') if ordn == 0 else need('(inner.Kind() == reflect.Interface || inner.Kind() == reflect.Ptr)'), 'kind checked in the same condition')
+            return thm('C07Sites', 'Kit.C07.decodeString_reflect_sites', need('inner.Kind() == reflect.Interface') if ordn == 0 else need('(inner.Kind() == reflect.Interface || inner.Kind() == reflect.Ptr)'))
         if expr == 'inner.Elem()':
-            return guarded(need('for inner.Kind() == reflect.Interface && !inner.IsNil()'), 'kind checked by the loop condition')
+            return thm('C07Sites', 'Kit.C07.decodeString_reflect_sites', need('for inner.Kind() == reflect.Interface && !inner.IsNil()'))
         if expr == 'f.Elem()':
-            return guarded(need('f.Kind() == reflect.Ptr'), 'pointer kind checked')
+            return thm('C07Sites', 'Kit.C07.typeElem_sites', need('f.Kind() == reflect.Ptr'))
         if expr == 'elem.Interface()':
-            return thm('C07', 'decodeString_never_panics', need('!(!inner.IsValid() || ((inner.Kind() == reflect.Interface || inner.Kind() == reflect.Ptr) && inner.IsNil()))'))
+            return thm('C07Sites', 'Kit.C07.decodeString_reflect_sites', need('!(!inner.IsValid() || ((inner.Kind() == reflect.Interface || inner.Kind() == reflect.Ptr) && inner.IsNil()))'))
         if expr in ('t.Implements(typeStringDecoder)', 'reflect.PtrTo(t).Implements(typeStringDecoder)', 'reflect.PtrTo(t)', 'reflect.New(t)', 'reflect.New(t).Interface()'):
             return '.typeInvariant "typeStringDecoder is an interface type and t is non-nil; reflect.New(t) is a settable non-nil pointer"'
         if any(c == 't.Implements(typeStringDecoder)' for c in guards):
@@ -209,9 +201,9 @@ def rule(fn, kind, expr, ordn, guards, contract):
         if expr == 't.Kind()':
             return guarded([], 't is non-nil after the first Kind() call returned')
         if expr == 't.Elem()':
-            return guarded(need('t.Kind() == reflect.Ptr'), 'pointer kind checked')
+            return thm('C07Sites', 'Kit.C07.typeElem_sites', need('t.Kind() == reflect.Ptr'))
     if fn == 'config.Normalize':
-        return guarded(need('range i over x'), 'index ranges over the slice itself')
+        return thm('C07', 'normalize_never_panics', need('range i over x'))
     return None
 
 def main():
